@@ -269,8 +269,12 @@ pub fn c18(a: &Analysis) -> Vec<Violation> {
                                 }
                             }
                             None => {
-                                // only demanded if the sender was still alive when it arrived
-                                if t.at_src.end_seq.map(|e| e > r.seq).unwrap_or(true) && t.at_src.first_finished().is_none() {
+                                // only demanded if the sender was still alive when it arrived: decided
+                                // by virtual instants, not by log order inside one instant (the
+                                // transport pulls a datagram before the transaction sees it; a
+                                // sender whose last timer expiry falls on the same instant had
+                                // already ended when the PDU would have been handed over)
+                                if t.at_src.end_vt.map(|e| e > r.vt).unwrap_or(true) && t.at_src.first_finished().is_none() {
                                     out.push(v(
                                         "C18",
                                         "sender_no_report_after_finished_pdu",
